@@ -189,7 +189,7 @@ func registerMore2() {
 		ID: "C19",
 		Explanation: "PARTIAL (the jhttp.Channel clause is outside, see below). (1) ParseQuery and ParseBasic on a request whose single query value is a symbolic string over the alphabet {\" ' + - 0 1 . e x _ n a i f} or one of the words true/false/null/inf/nan/infinity/-inf/+inf in lower, upper or title case: no panic, non-empty method equal to the trimmed path, parameters JSON-marshalable (checked by marshalling them through the json stub, where NaN/Inf fail), typing per the documented cascade (values strconv accepts beyond the documented grammar may be finite numbers: 'liberal typing', tolerated). " +
 			"(2) the path trimmed of slashes for every path of <= 4 symbolic bytes. (3) Getter.ServeHTTP over a real server.Local: 400 for an unparsable URL, 200 with the result, 404 for method-not-found (unknown method, or a handler error with that code), 500 otherwise; body always valid JSON.",
-		Bounds:      []string{"one query key; value <= 3 bytes over the 14-letter alphabet (thorough 4) or a listed word", "path <= 4 bytes", "handler error code: any int32"},
+		Bounds:      []string{"one query key; value <= 3 bytes over the 14-letter alphabet or a listed word", "path <= 4 bytes", "handler error code: any int32"},
 		Outside:     []string{"jhttp.Channel over net/http (one goroutine per POST, response-body closing, drain on Close): needs the HTTP client/transport stack and goroutine-leak observation of library goroutines, which this engine does not model", "url parsing / percent-decoding (Request.ParseForm is a stub: the harness supplies Form)"},
 		Assumptions: append([]string{jsonAssumption, threadAssumption, "strconv.ParseInt/ParseFloat: bytes are case-split to representatives (digits into zero/non-zero) and the real strconv function is run on the representative; range errors with >= 3 exponent digits are nondeterministic", "base64.RawStdEncoding.DecodeString is run on the concretised text", "net/http.Header and url.Values executed from source; http.ResponseWriter is a harness recorder"}, commonAssumptions...),
 		Harnesses: []HarnessSpec{
